@@ -6,7 +6,9 @@ _create_components() (as the repository's tests do) or robotInit().  What is
 observed: the exception class, or -- by id() -- the constructor kwargs of every
 component, every annotated / preset attribute of every component and mode at
 each setup() call and after startup.  The same spec is emitted as a Coq term
-and Inject.Model.check_case compares model and implementation inside Coq.
+and Inject.Model.check_case_in compares model and implementation inside Coq.
+Every robot is started while the (simulated) driver station reports the state
+spec["env"]: FMS attached or not, robot enabled or not.
 """
 import collections.abc
 import functools
@@ -102,6 +104,42 @@ def name_class(n):
     if n != n.lower() or any(ch.isdigit() for ch in n):
         return "uppercase-or-digit"
     return None
+
+
+# ---------------------------------------------------------------------------
+# the driver station while the robot program starts (spec["env"])
+# ---------------------------------------------------------------------------
+ENV_OFF = {"fms": False, "enabled": False}
+
+
+def spec_env(spec):
+    """the state of the driver station the robot of this spec is started in; specs written before
+    the dimension existed have none: no FMS, disabled"""
+    e = dict(ENV_OFF)
+    e.update(spec.get("env") or {})
+    return {"fms": bool(e["fms"]), "enabled": bool(e["enabled"])}
+
+
+def env_text(env):
+    return "FMS %s, robot %s" % ("attached" if env["fms"] else "not attached", "enabled" if env["enabled"] else "disabled")
+
+
+def rand_env(rng):
+    fms = rng.random() < 0.4
+    return {"fms": fms, "enabled": rng.random() < (0.4 if fms else 0.15)}
+
+
+def set_driver_station(env):
+    """Make wpilib.DriverStation report `env` (simulated driver station: new control word, then the
+    refresh the robot's main loop would do) and return what it reports afterwards."""
+    import wpilib
+    from wpilib.simulation import DriverStationSim
+    DriverStationSim.setDsAttached(True)
+    DriverStationSim.setFmsAttached(bool(env["fms"]))
+    DriverStationSim.setEnabled(bool(env["enabled"]))
+    DriverStationSim.notifyNewData()
+    wpilib.DriverStation.refreshData()
+    return {"fms": bool(wpilib.DriverStation.isFMSAttached()), "enabled": bool(wpilib.DriverStation.isEnabled())}
 
 
 # ---------------------------------------------------------------------------
@@ -484,6 +522,18 @@ def run_robot(spec):
     modes = {}
     for k, m in enumerate(b.modes):
         modes[m.MODE_NAME] = m
+    env = spec_env(spec)
+    res["env_seen"] = set_driver_station(env)        # in force from MagicRobot() to the end of start-up
+    try:
+        return _start(spec, b, res, modes)
+    finally:
+        set_driver_station(ENV_OFF)
+
+
+def _start(spec, b, res, modes):
+    import magicbot.magicrobot as mr
+    import magicbot.inject as mi
+    extra = inherited_values(b)
     try:
         bot = b.robot_cls()
         b.robot = bot
@@ -896,7 +946,8 @@ def emit_case(spec, res):
     classes = set(f[4] for f in analyse(spec, res["inherited"])["faults"])
     strict = len(classes) <= 1
     ir = "(Build_impl_result %s %s %s)" % (coq_nat(res["outcome"]), coq_bool(strict), obs)
-    return "(%s, %s, %s)" % (pairs, robot, ir)
+    env = spec_env(spec)
+    return "(%s, (Build_env %s %s), %s, %s)" % (pairs, coq_bool(env["fms"]), coq_bool(env["enabled"]), robot, ir)
 
 
 HEADER = ("From Coq Require Import List String Bool Arith.\nFrom RV Require Import Inject.Model.\n"
@@ -904,8 +955,8 @@ HEADER = ("From Coq Require Import List String Bool Arith.\nFrom RV Require Impo
 
 
 def cases_file(terms):
-    return (HEADER + "Definition cases : list (list (cls * cls) * robot * impl_result) :=\n%s.\n"
-            "Eval vm_compute in (bad 0 cases).\n" % coq_list(terms))
+    return (HEADER + "Definition cases : list (list (cls * cls) * env * robot * impl_result) :=\n%s.\n"
+            "Eval vm_compute in (bad_in 0 cases).\n" % coq_list(terms))
 
 
 # ---------------------------------------------------------------------------
@@ -1238,7 +1289,8 @@ class Gen:
         return {"data_classes": self.data, "pool": self.pool,
                 "rattrs": [[n, e[0], e[1], e[2]] for n, e in sorted(self.rattrs.items())],
                 "rhints": rh, "rbase": self.rbase, "create_in_base": r.random() < 0.5,
-                "comps": self.comps, "modes": modes, "path": "init" if r.random() < 0.3 else "create"}
+                "comps": self.comps, "modes": modes, "path": "init" if r.random() < 0.3 else "create",
+                "env": rand_env(r)}
 
 
 INH_STATIC = {"control_loop_wait_time": [900, 4, True, "plain", False],
@@ -1317,11 +1369,13 @@ def edge_specs(rng):
     """every relation of the quantifier at least a few times, small robots first"""
     out = []
     for rel in sorted(set(OK_REL + BAD_REL)):
-        for _ in range(4):
+        for i in range(4):
             g = Gen(rng, "wild")
             g.budget = 0
             g.forced = [rel]
-            out.append(g.make())
+            sp = g.make()
+            sp["env"] = {"fms": i % 2 == 1, "enabled": i == 3}      # each relation with and without the FMS
+            out.append(sp)
     return out
 
 
@@ -1342,9 +1396,12 @@ def product_specs(rng, reps):
         for plain in STATES:
             for pref in STATES:
                 for rep in range(reps):
-                    # every third robot of a combination calls the attribute something unusual
-                    out.append(product_spec(rng, tkind, plain, pref, embed=(rep % 2 == 1),
-                                            attr_name=rng.choice(ODD_NAMES) if rep % 3 == 2 else None))
+                    # every third robot of a combination calls the attribute something unusual; robots 3, 4, 5 of
+                    # every six (one alone, one embedded, one with an unusual name) start with the FMS attached
+                    sp = product_spec(rng, tkind, plain, pref, embed=(rep % 2 == 1),
+                                      attr_name=rng.choice(ODD_NAMES) if rep % 3 == 2 else None)
+                    sp["env"] = {"fms": (rep // 3) % 2 == 1, "enabled": rep % 6 == 4 or rep % 12 == 2}
+                    out.append(sp)
     return out
 
 
@@ -1372,7 +1429,8 @@ def product_spec(rng, tkind, plain, pref, embed, attr_name=None):
         spec = repair(Gen(rng, "valid").make(), 0, rng)
     else:
         spec = {"data_classes": [], "pool": [], "rattrs": [], "rhints": [], "rbase": rng.random() < 0.3,
-                "create_in_base": rng.random() < 0.5, "comps": [], "modes": [], "path": rng.choice(["create", "create", "init"])}
+                "create_in_base": rng.random() < 0.5, "comps": [], "modes": [], "path": rng.choice(["create", "create", "init"]),
+                "env": rand_env(rng)}
     have = {d[0] for d in spec["data_classes"]}
     for d in ([20, 0], [21, 20], [22, 0]):
         if d[0] not in have:
